@@ -380,12 +380,57 @@ def outside_links(binpath, res, seed, n):
             res.inconclusive.append(f"outside-links positive control rejected: {o['runs'][0].get('e')}")
 
 
+def expiry_history(binpath, res, seed):
+    """one process: a delegation tree whose sub-layout is still valid verifies; another verification fails; real time passes
+    until the sub-layout's expiry is over; the tree is verified again (also one with the same shape that was never verified
+    before).  A step is not satisfied by an expired sub-layout, whatever the process did earlier"""
+    import datetime
+    rng = common.rng_for(seed, PROP, 4343)
+    W = scen.World(binpath)
+    now = datetime.datetime.now(datetime.timezone.utc)
+    T = (now + datetime.timedelta(seconds=7)).replace(microsecond=0)
+    reqs, nodes = [], []
+    for i in range(3):
+        nd = pipeline.make_node(rng, W, 1, ["ed0"], FUNC, nsteps=2, delegate_prob=1.0)
+        nd["steps"][i % 2]["evidence"][0]["node"]["layout"]["expires"] = scen.iso(T)
+        pipeline.collect_requests(nd, reqs)
+        nodes.append(nd)
+    wires = scen.sign_all(binpath, reqs, nproc=1)
+    keys = [[W.kid("ed0"), W.pub("ed0")]]
+    exp_ns = int(T.timestamp()) * 10 ** 9
+    seq = []
+    files = [pipeline.tree_files(W, nd, wires) for nd in nodes]
+    seq.append(scen.verify_case(wires[nodes[0]["req"]], keys, files[0], meta={"mode": "history:while_valid", "expect": "accept"}))
+    seq.append(scen.verify_case(wires[nodes[1]["req"]], keys, {}, meta={"mode": "history:failing_verification", "expect": "reject"}))
+    seq.append(scen.verify_case(wires[nodes[1]["req"]], keys, {k: v[:len(v) // 2] for k, v in files[1].items()}, meta={"mode": "history:failing_verification", "expect": "reject"}))
+    for j in (0, 1, 2):
+        c = scen.verify_case(wires[nodes[j]["req"]], keys, files[j], meta={"mode": "history:after_expiry:" + ["verified_before", "failed_before", "never_seen"][j], "expect": "reject"})
+        c["not_before_ns"] = str(exp_ns + 400_000_000)
+        seq.append(c)
+    obs = common.run_batch(binpath, seq)
+    for c, o in zip(seq, obs):
+        if scen.harness_failed(o):
+            res.inconclusive.append(f"executor failure: {str(o)[:200]}")
+            return
+        m = c["meta"]
+        ok = o["runs"][0]["v"] == "ok"
+        t0 = int(o["runs"][0].get("t0", 0))
+        res.note([m["mode"], c["layout"][:60]], True, cls=[f"mode:{m['mode']}", "accepted" if ok else "rejected"])
+        if m["mode"] == "history:while_valid":
+            if not ok and t0 < exp_ns:
+                res.inconclusive.append(f"history control (still valid) rejected: {o['runs'][0].get('e')}")
+        elif m["mode"].startswith("history:after_expiry") and ok and t0 > exp_ns:
+            res.violate("accept:expired-sub-layout-after-earlier-verifications", f"a step was satisfied by a sub-layout that expired {((t0 - exp_ns) / 1e9):.2f}s "
+                        f"before the call ({m['mode']})", c, o, "reject")
+
+
 def main(ctx):
     res = common.Result()
     n = 50 if not ctx.thorough else 2500
     for p in common.pmap(shard, [(ctx.bin, ctx.seed, s, n) for s in range(common.NPROC)]):
         res.merge(p)
     outside_links(ctx.bin, res, ctx.seed, 60 if not ctx.thorough else 600)
+    expiry_history(ctx.bin, res, ctx.seed)
     # a layout without steps: the summary is empty but still carries the requested name
     W = scen.World(ctx.bin)
     lw = scen.sign_all(ctx.bin, [(scen.mk_layout(W, [], [], []), ["ed0"], "new")])[0]
@@ -410,5 +455,5 @@ def main(ctx):
                   "mode:inner_link_missing", "mode:links_in_parent_dir", "mode:links_in_other_key_dir",
                   "mode:parent_disallows_summary_product", "mode:parent_requires_summary_product", "mode:inner_rule_fail",
                   "mode:multi_delegation:all_good", "mode:multi_delegation:dir_missing", "mode:multi_delegation:inner_link_unauth",
-                  "depth:2", "rejected", "inner_expired:within_a_day", "mode:outside:control", "mode:outside:parent_dir", "mode:outside:sibling_dir"],
+                  "depth:2", "rejected", "inner_expired:within_a_day", "mode:history:while_valid", "mode:history:after_expiry:failed_before", "mode:outside:control", "mode:outside:parent_dir", "mode:outside:sibling_dir"],
         min_evals=400)
